@@ -74,6 +74,8 @@ def sign_change_near(f, x, tol, T):
 def check_props(ctx, name, params, f, lo, hi, tol, sc, cont, root, success, T, which):
     eps = D.epsilon(np.dtype(T))
     tolv = T(eps) if tol is None or tol < eps else T(tol)
+    # width tests use xtol = max(tol, 4 eps max(|lo|, |hi|)) (no bracket can be narrower than the spacing of its ends)
+    xtolv = max(tolv, T(4) * T(eps) * max(abs(T(lo)), abs(T(hi))))
     inp = dict(kind="brent", solver=which, family=name, params=params, lo=float(lo), hi=float(hi), tol=None if tol is None else float(tol), dtype=np.dtype(T).name)
     fa, fb = f(T(lo)), f(T(hi))
     rejected = not np.isfinite(root)
@@ -84,10 +86,10 @@ def check_props(ctx, name, params, f, lo, hi, tol, sc, cont, root, success, T, w
                    what="bracket with f(lo)*f(hi) = %r <= 0 (sign change or root at an end point) rejected: returned %r, success=%r" % (float(fa * fb), float(root), bool(success)))
     if success:
         fr = abs(f(T(root)))
-        ctx.oracle("success-sound", bool(fr <= tolv) or sign_change_near(f, root, tolv, T), inp,
+        ctx.oracle("success-sound", bool(fr <= tolv) or sign_change_near(f, root, xtolv, T), inp,
                    what="success reported but |f(root)| = %r > tol and no sign change within tol" % (float(fr),))
     if sc is True and fa * fb < 0:
-        near = (not rejected) and sign_change_near(f, root, tolv, T)
+        near = (not rejected) and sign_change_near(f, root, xtolv, T)
         try:
             if which == "brentsroot":
                 _, _, (ia, ib) = OPT.brentsroot(f, [T(lo), T(hi)], tol=tol, return_interval=True)
@@ -100,15 +102,17 @@ def check_props(ctx, name, params, f, lo, hi, tol, sc, cont, root, success, T, w
             ia = ib = fia = fib = None
         if ia is not None and fia * fib > 0:
             ctx.oracle("bracket-kept", False, inp, key="brent-bracket-lost", what="final interval [%r, %r] no longer brackets a sign change" % (float(ia), float(ib)))
-        elif not near and ia is not None and abs(ib - ia) >= tolv:
+        elif not near and ia is not None and abs(ib - ia) >= xtolv:
             ctx.oracle("sign-change-located", False, inp, key="brent-iteration-cap",
-                       what="iteration cap reached: final bracket width %r >= tol %r, returned point not within tol of the sign change" % (float(abs(ib - ia)), float(tolv)))
+                       what="iteration cap reached: final bracket width %r >= tol %r, returned point not within tol of the sign change" % (float(abs(ib - ia)), float(xtolv)))
         elif not near:
             ctx.oracle("sign-change-located", False, inp, key="brent-sign-change-not-located",
                        what="sign change over the bracket but returned point %r is not within tol of a sign change" % (float(root),))
         else:
-            ctx.oracle("sign-change-success", bool(success), inp, key="brent-steep-no-success",
-                       what="sign change located to within tol at %r but success=False (|f(root)|=%r > absolute tol %r)" % (float(root), float(abs(f(T(root)))), float(tolv)))
+            # (a final bracket still wider than the width tolerance means the iteration cap stopped the solver: finding P14b)
+            capped = ia is not None and abs(ib - ia) >= xtolv
+            ctx.oracle("sign-change-success", bool(success), inp, key="brent-iteration-cap" if capped else "brent-steep-no-success",
+                       what="sign change located to within tol at %r but success=False (|f(root)|=%r, final bracket width %r, width tolerance %r)" % (float(root), float(abs(f(T(root)))), None if ia is None else float(abs(ib - ia)), float(xtolv)))
     if sc is False:
         ctx.oracle("no-bracket-no-success", (not success) or bool(abs(f(T(root))) <= tolv), inp, what="success claimed without sign change and with |f(root)| > tol")
 
